@@ -101,7 +101,16 @@ pub fn run_batch(
                     let end = if budget.is_none() { (b + BLOCK).min(runs) } else { b + BLOCK };
                     for idx in b..end {
                         let (seed, case) = gen_case(s, master, tier, idx);
-                        let out: RunOut = (s.run)(&case, false);
+                        let mut out: RunOut = (s.run)(&case, false);
+                        // fold the verdict into the hash: evaluations, violations, probes
+                        out.mix(&out.evals.to_le_bytes());
+                        let sigs: Vec<String> = out.violations.iter().map(|v| v.signature.clone()).collect();
+                        for sg in sigs {
+                            out.mix(sg.as_bytes());
+                        }
+                        for p in out.probes.clone() {
+                            out.mix(p.as_bytes());
+                        }
                         sh.runs += 1;
                         sh.evals += out.evals.max(1);
                         sh.steps += out.steps;
